@@ -254,7 +254,15 @@ def estimator_stubs(dom):
         I.assume(V.s_cmp(">=", nwin, 1))
         sk = dom.opaque_array2("pmtm_Sk", keys, nwin, NFFT, "complex")
         is_adapt = V.enum_eq(method, "adapt") if isinstance(method, Enum) else (method == "adapt")
-        if I.branch(is_adapt) if not isinstance(is_adapt, bool) else is_adapt:
+        if isinstance(is_adapt, bool):
+            ad = is_adapt
+        elif I.in_spec:
+            ad = V.known(is_adapt)
+            if ad is None:
+                raise Unsupported("pmtm contract evaluated in a specification with an undetermined method")
+        else:
+            ad = I.branch(is_adapt)
+        if ad:
             w = dom.opaque_array2("pmtm_w_adapt", keys, NFFT, nwin, "float")
         else:
             w = dom.opaque_array2("pmtm_w", keys, nwin, 1, "float")
